@@ -30,17 +30,29 @@ def write_files(root, files):
             fh.write(text)
 
 
-def run_cli(cwd, args, timeout=120):
+def _limit(fsize):
+    """preexec hook: the process may not grow any file beyond `fsize` bytes (the kernel kills it with SIGXFSZ in the
+    middle of the write that would: a crash point, not an error return)"""
+    if fsize is None:
+        return None
+
+    def hook():
+        import resource
+        resource.setrlimit(resource.RLIMIT_FSIZE, (fsize, fsize))
+    return hook
+
+
+def run_cli(cwd, args, timeout=120, fsize=None):
     """cargo-tauri-typegen is a cargo subcommand: argv[1] is `tauri-typegen`"""
     p = subprocess.run([core.CLI, "tauri-typegen"] + args, cwd=cwd, stdout=subprocess.PIPE, stderr=subprocess.PIPE,
-                       timeout=timeout, env=core.ENV)
+                       timeout=timeout, env=core.ENV, preexec_fn=_limit(fsize))
     return p.returncode, p.stdout.decode(errors="replace"), p.stderr.decode(errors="replace")
 
 
-def run_build(cwd, timeout=120):
+def run_build(cwd, timeout=120, fsize=None):
     """BuildSystem::generate_at_build_time() in a fresh process with the given current directory"""
     p = subprocess.run([core.TGH, "buildpath"], cwd=cwd, stdout=subprocess.PIPE, stderr=subprocess.PIPE,
-                       timeout=timeout, env=core.ENV)
+                       timeout=timeout, env=core.ENV, preexec_fn=_limit(fsize))
     return p.returncode, p.stdout.decode(errors="replace"), p.stderr.decode(errors="replace")
 
 
